@@ -121,6 +121,7 @@ fn gen_program(seed: u64, id: u64, focus: &str, thorough: bool) -> Program {
         "C06" => *rng.pick(&["readwrite", "writers", "readers-long"]),
         "C07" => *rng.pick(&["writers", "writers", "abort"]),
         "C12" => *rng.pick(&["checkpointing", "checkpointing", "writers"]),
+        "C18" => *rng.pick(&["writers", "writers", "write-then-read"]),
         "C08" => "orphans",
         "C13" => "abort",
         "C15" => *rng.pick(&["writers", "readwrite", "orphans", "mixed", "mixed"]),
@@ -488,6 +489,13 @@ fn invariants(ctx: &Ctx, state_write_held: bool, renamed: &[bool]) -> Vec<(Strin
     if !state_write_held {
         let g = ctx.cas.read_index_state();
         for (k, item) in g.iter() {
+            // identity: what a key records is (BLAKE3, length) of ONE content some put wrote
+            if !ctx.hashes.iter().zip(&ctx.contents).any(|(h, c)| *h == item.blob_hash.0 && c.len() as u64 == item.blob_size) {
+                out.push((
+                    "C18|a visible key records a hash and a size that belong to no single content the program wrote".to_string(),
+                    format!("key {k} -> {} with size {}", item.blob_hash, item.blob_size),
+                ));
+            }
             let p = cas_dir.join(rel_path_of(&item.blob_hash.0));
             match std::fs::read(&p) {
                 Ok(b) => {
@@ -1150,7 +1158,24 @@ fn run_and_judge(prog: &Program, strategy: Strategy, serial: bool, focus: &str) 
     let Prepared { ctx: pctx, base } = prep;
     let sole_owner = Arc::try_unwrap(pctx).is_ok(); // drops the handle (and the scan result)
     if sole_owner && !any_error {
-        match Cas::<String>::open(&root, config(prog.n_ops, true, false, true, true)) {
+        let opened = std::panic::catch_unwind(std::panic::AssertUnwindSafe(|| {
+            Cas::<String>::open(&root, config(prog.n_ops, true, false, true, true))
+        }));
+        let opened = match opened {
+            Ok(r) => r,
+            Err(p) => {
+                let msg = p.downcast_ref::<String>().cloned().or_else(|| p.downcast_ref::<&str>().map(|s| s.to_string())).unwrap_or_default();
+                findings.push(Finding::new(
+                    &["C02", focus_static(focus)],
+                    "reopen after a concurrent history panicked",
+                    "reopen after concurrent run",
+                    msg,
+                ));
+                fsx::rm_rf(&base);
+                return Ok(Judged { findings, outcome, feats, fatal: false });
+            }
+        };
+        match opened {
             Ok(cas) => {
                 let after = cassadilia_verif::oracle::observe(&cas);
                 let d = before.diff(&after, true);
@@ -1198,6 +1223,7 @@ fn focus_static(focus: &str) -> &'static str {
         "C02" => "C02",
         "C20" => "C20",
         "C17" => "C17",
+        "C18" => "C18",
         "C05" => "C05",
         "C06" => "C06",
         "C07" => "C07",
